@@ -47,6 +47,10 @@ def rec_id(r):
     return r[0] | r[1] << 8
 
 
+class NoProgress(RuntimeError):
+    pass
+
+
 class SelDevice:
     """Reference SEL device. plan: list of None | record (bytes): consumed one per request,
     a record is appended to the log (cancelling the reservation) just before that request.
@@ -63,6 +67,7 @@ class SelDevice:
         self.max_requests = max_requests
         # variant: offset+length > 16 is refused with 0xC9 before the size limit is looked at (as legal)
         self.range_first = range_first
+        self.step_budget = None
 
     def lookup(self, rid):
         if not self.log:
@@ -83,6 +88,10 @@ class SelDevice:
         self.n += 1
         if self.n > self.max_requests:
             raise RuntimeError('harness: request budget exceeded (client loops)')
+        if self.step_budget is not None:
+            self.step_budget -= 1
+            if self.step_budget < 0:
+                raise NoProgress('step issued more requests than any correct operation on this log needs')
         if self.plan:
             a = self.plan.pop(0)
             if a is not None:
@@ -350,6 +359,14 @@ def _apply_sel(ipmi, c):
         return ipmi.get_and_clear_sel_entry(c['rid'])
     if op == 'clear':
         return ipmi.clear_sel()
+    if op == 'delete':
+        if c['resv'] == 'fresh':
+            return ipmi.delete_sel_entry(c['rid'], ipmi.get_sel_reservation_id())
+        if c['resv'] == 'stale':          # a reservation that a later Reserve has superseded
+            old = ipmi.get_sel_reservation_id()
+            ipmi.get_sel_reservation_id()
+            return ipmi.delete_sel_entry(c['rid'], old)
+        return ipmi.delete_sel_entry(c['rid'])      # default reservation 0
     if op == 'entry':
         if c.get('resv'):
             return ipmi.get_sel_entry(c['rid'], ipmi.get_sel_reservation_id())
@@ -382,11 +399,13 @@ def exec_sel_history(inp):
                 'plan': list(dev.plan), 'ndel': len(dev.deleted)}
         start = len(itf.log)
         snap['sleeps'] = []
+        dev.step_budget = 80 * (len(dev.log) + len(dev.plan) + 3)
         try:
             with fake_sleep(snap['sleeps']):
                 out = ('ok', _apply_sel(ipmi, c))
         except Exception as e:  # noqa
             out = ('err', e)
+        dev.step_budget = None
         dev.plan = []
         yield n, c, out, itf.log[start:], snap, dev
 
@@ -412,6 +431,24 @@ def _expect_cc(out, cc, what):
 def judge_sel_call(c, out, seg, snap, dev, ref):
     """(failure class, message, new reference log) - failure class None if the step is right"""
     op = c['op']
+    if out[0] == 'err' and isinstance(out[1], NoProgress):
+        return 'no-progress', 'no progress: %d requests issued and still not finished' % len(seg), list(dev.log)
+    if op == 'delete':
+        k = _find(ref, c['rid'])
+        if c['resv'] != 'fresh':
+            m = _expect_cc(out, 0xc5, 'delete without the current reservation')
+            if not m and dev.log != ref:
+                m = 'the log changed although the delete was refused'
+            return ('delete-refused' if m else None), m, ref
+        if k is None:
+            m = _expect_cc(out, 0xcb, 'no such record')
+            return ('delete-absent' if m else None), m, ref
+        new = ref[:k] + ref[k + 1:]
+        if out[0] == 'err' or out[1] != rec_id(ref[k]):
+            return 'delete-result', 'returned %r, expected the id %04x of the deleted record' % (out[1], rec_id(ref[k])), list(dev.log)
+        if dev.log != new or dev.deleted[snap['ndel']:] != [ref[k]]:
+            return 'delete-log', 'the device did not delete exactly the named entry', list(dev.log)
+        return None, None, new
     if op == 'count':
         if out[0] == 'err' or out[1] != len(ref):
             return 'count', 'returned %r, the log holds %d entries' % (out[1], len(ref)), ref
@@ -833,12 +870,18 @@ def run(ctx):
         calls = []
 
         def client(op=None, obj=None):
-            op = op or rng.choice(['entries', 'entries', 'count', 'entry', 'gac', 'gac', 'gac', 'clear'])
+            op = op or rng.choice(['entries', 'entries', 'count', 'entry', 'gac', 'gac', 'gac', 'clear', 'delete'])
             c = {'op': op, 'obj': obj or rng.choice('AAB')}
-            if op in ('entry', 'gac') and not cur:
+            if op in ('entry', 'gac', 'delete') and not cur:
                 c['op'] = op = 'entries'
             if op == 'clear':
                 del cur[:]
+            if op == 'delete':
+                c['resv'] = rng.choice(['fresh', 'fresh', 'stale', 'zero'])
+                t = rng.choice(cur)
+                c['rid'] = rec_id(t)
+                if c['resv'] == 'fresh':
+                    cur[:] = [r for r in cur if r is not t]
             if op == 'entry':
                 c['rid'] = rng.choice([0, 0xffff] + [rec_id(r) for r in cur])
                 c['resv'] = True if lim_now[0] not in (0xff, 16) else rng.random() < 0.5
@@ -852,6 +895,26 @@ def run(ctx):
                     c['plan'] = [None] * rng.randrange(0, 3) + [a.hex()]
                 cur[:] = [r for r in cur + adds if r is not t]
             calls.append(c)
+
+        def failing_step(obj=None):
+            """a step that must fail, from the state the log is in"""
+            obj = obj or rng.choice('AAB')
+            absent = rng.choice([x for x in (0x7001, 0x7002, 0x00fe, 0xfffe) if x not in [rec_id(r) for r in cur]])
+            kind = rng.choice(['entry-absent', 'gac-absent', 'delete-absent', 'delete-refused', 'entry-noresv'])
+            if kind == 'entry-noresv' and (lim_now[0] in (0xff, 16) or not cur):
+                kind = 'entry-absent'
+            if kind == 'delete-refused' and not cur:
+                kind = 'delete-absent'
+            if kind == 'entry-absent':
+                calls.append({'op': 'entry', 'obj': obj, 'rid': absent, 'resv': True})
+            elif kind == 'gac-absent':
+                calls.append({'op': 'gac', 'obj': obj, 'rid': absent})
+            elif kind == 'delete-absent':
+                calls.append({'op': 'delete', 'obj': obj, 'rid': absent, 'resv': 'fresh'})
+            elif kind == 'delete-refused':
+                calls.append({'op': 'delete', 'obj': obj, 'rid': rec_id(rng.choice(cur)), 'resv': rng.choice(['stale', 'zero'])})
+            else:
+                calls.append({'op': 'entry', 'obj': obj, 'rid': rec_id(rng.choice(cur)), 'resv': False})
 
         def bmc_append():
             recs = [fresh() for _ in range(rng.randrange(1, 4))]
@@ -871,8 +934,16 @@ def run(ctx):
             elif r < 0.25:
                 lim_now[0] = rng.choice(limits)
                 calls.append({'op': 'limit', 'value': lim_now[0]})
+            elif r < 0.4:
+                failing_step()
             else:
                 client()
+        # a step that must fail, then ordinary operations on the SAME object
+        for pat in range(2):
+            obj = rng.choice('AB')
+            failing_step(obj)
+            client(rng.choice(['entries', 'entry', 'gac', 'count']), obj)
+            client(None, obj)
         # directed patterns on ONE object: a listing / count, then the log changes on the device side
         # (emptied by another party, or filled by the BMC), then a listing again
         for pat in range(2):
@@ -907,6 +978,15 @@ def run(ctx):
                     t = 'chk_entries ex %s' % c_res(out, lambda v: C.c_list([c_entry(e) for e in v]))
                 elif c['op'] == 'gac':
                     t = 'chk_gac %d ex %s' % (c['rid'], c_res(out, c_entry))
+                elif c['op'] == 'delete':
+                    fmtd = lambda v: str(v)  # noqa
+                    nres = {'fresh': 1, 'stale': 2, 'zero': 0}[c['resv']]
+                    if len(seg) >= nres and all(x.cmd == CMD_RESERVE and len(x.reply) == 3 for x in seg[:nres]):
+                        Rs = [x.reply[1] | x.reply[2] << 8 for x in seg[:nres]]
+                        t = ' && '.join(['chk_reserve (firstn 1 (skipn %d ex)) (Ok %d)' % (k, R) for k, R in enumerate(Rs)]
+                                        + ['chk_delete %d %d (skipn %d ex) %s' % (c['rid'], Rs[0] if Rs else 0, nres, c_res(out, fmtd))])
+                    else:
+                        t = 'false'
                 elif c['op'] == 'clear':
                     t = 'chk_clear 5 ex %s %s' % (C.c_list([str(x) for x in snap['sleeps']]), c_res(out, lambda v: 'tt'))
                 elif c.get('resv') and seg and seg[0].cmd == CMD_RESERVE and len(seg[0].reply) == 3:
